@@ -549,6 +549,12 @@ def _op_history(S, out, op):
             return
         raise
     except ValueError as e:
+        if by_loc and "special-formatted parameters is not supported" in str(e):
+            # armi's documented refusal: by-location histories of a parameter stored with special formatting (a ragged
+            # column with unset entries) are not supported
+            S.counts["history-by-location:special-formatting-refused"] += 1
+            out.rejected = True
+            return
         if by_loc and "location" in names and "inhomogeneous" in str(e):
             out.fail(SIG_LOCLOC, "%s(%s, %r): ValueError: %s" % (tag, type(comps[0]).__name__, names, str(e)[:160]))
             return
